@@ -82,7 +82,9 @@ def two_stage_doc(ck1, ck2, iters=6, freq=2):
 
 def mcmc_doc(kind, ckpt, iters, freq):
     if kind == "toy":
-        ops = [c15.op("SlidingWindowOperator", "x.slide", "x", width=1.0), c15.op("ScalerOperator", "s.scale", "s", scaler=0.5),
+        # a short acceptance window: after a restart each operator makes more moves than the window holds
+        ops = [c15.op("SlidingWindowOperator", "x.slide", "x", width=1.0, acceptance_window_length=3),
+               c15.op("ScalerOperator", "s.scale", "s", scaler=0.5, acceptance_window_length=2),
                c15.op("DirichletOperator", "f.dir", "f", scaler=40.0)]
         doc = c15.toy_joint() + [c15.mcmc("joint", ops, iters, ["joint"])]
     else:
@@ -106,7 +108,7 @@ def configs(tier):
                 {"dtype": "float32"}))
     out.append(("opt-adam-elbo", lambda ck, n, f: opt_doc("Adam", {"lr": 0.05}, ckpt=ck, iters=n, freq=f, stochastic=True), {}))
     out.append(("opt-lbfgs", lambda ck, n, f: opt_doc("LBFGS", {"lr": 0.5, "max_iter": 2}, ckpt=ck, iters=n, freq=f), {}))
-    out.append(("mcmc-toy", lambda ck, n, f: mcmc_doc("toy", ck, n, f), {"n": 12, "f": 4}))
+    out.append(("mcmc-toy", lambda ck, n, f: mcmc_doc("toy", ck, n, f), {"n": 24, "f": 8}))
     out.append(("mcmc-hmc-dense-step-mass", lambda ck, n, f: mcmc_doc("hmc-dense-step-mass", ck, n, f), {"n": 16, "f": 8}))
     out.append(("mcmc-hmc-diag-dual-mass", lambda ck, n, f: mcmc_doc("hmc-diag-dual-mass", ck, n, f), {"n": 16, "f": 8}))
     out.append(("mcmc-hmc-diag-dual-closed", lambda ck, n, f: mcmc_doc("hmc-diag-dual-closed", ck, n, f), {"n": 16, "f": 8}))
@@ -340,6 +342,19 @@ def check_config(ctx: Ctx, name, mk, opts, wd, rec: Recorder):
                 ctx.violation(f"C17:{name}:resumed-diverges",
                               f"configuration {name}: resumed from iteration {k}, the {j + 1}-th parameter state after the restart differs "
                               f"from the uninterrupted run", {"config": name, "k": k, "step": j + 1})
+            # (2b) ... and so is the algorithm state at every later checkpoint (acceptance windows, adaptor statistics, counters)
+            for e2 in [e for e in B2 if e["alg"] == alg and e["kind"] == "ckpt" and e["label"] > 0]:
+                # (labels count the updates made in the process that wrote them: the resumed process starts again from 0)
+                a2 = [e for e in A if e["alg"] == alg and e["kind"] == "ckpt" and e["label"] == k + e2["label"]]
+                if not a2:
+                    continue
+                for path in sorted(set(a2[0]["state"]) | set(e2["state"])):
+                    av, bv = a2[0]["state"].get(path), e2["state"].get(path)
+                    if av != bv:
+                        ctx.violation(f"C17:{name}:later-state:{norm_path(path)}",
+                                      f"configuration {name}: resumed from iteration {k}, the state written {e2['label']} updates later has {path} = {str(bv)[:80]}, "
+                                      f"the uninterrupted run has {str(av)[:80]}", {"config": name, "k": k, "later": e2["label"], "path": path})
+                        break
             # (3) counter bookkeeping: the resumed loop must apply exactly the remaining updates
             if len(b_after) != len(a_after):
                 measured["resume_after_saved"] = False
